@@ -259,6 +259,32 @@ func ForInInit(x string, init, o N, b ...N) N {
 	return N{"FII(" + x + "," + init.SX + "," + o.SX + ",S(" + joinN(b, nSX, ",") + "))", "for (var " + x + " = " + init.JS + " in " + o.JS + ") { " + joinN(b, nJS, " ") + " }"}
 }
 
+// Clause is one clause of a switch statement; Test == nil: the default clause.
+type Clause struct {
+	Test *N
+	Body []N
+}
+
+// Switch is switch (d) { case e: … default: … }
+func Switch(d N, cs ...Clause) N {
+	sx, js := "SW("+d.SX, "switch ("+d.JS+") { "
+	for _, c := range cs {
+		if c.Test == nil {
+			sx += ",DF(S(" + joinN(c.Body, nSX, ",") + "))"
+			js += "default: " + joinN(c.Body, nJS, " ") + " "
+		} else {
+			sx += ",C(" + c.Test.SX + ",S(" + joinN(c.Body, nSX, ",") + "))"
+			js += "case " + c.Test.JS + ": " + joinN(c.Body, nJS, " ") + " "
+		}
+	}
+	return N{sx + ")", js + "}"}
+}
+
+// Fcc is String.fromCharCode(k)
+func Fcc(k int) N {
+	return N{"fcc(" + strconv.Itoa(k) + ")", "String.fromCharCode(" + strconv.Itoa(k) + ")"}
+}
+
 // Label is l: s
 func Label(l string, s N) N { return N{"LB(" + l + "," + s.SX + ")", l + ": " + s.JS} }
 
